@@ -17,7 +17,7 @@ CHECKS = {
         note="Sequentially consistent interleavings only; thread counts <=4; digest completeness for the cyclic runs."),
     "C15": dict(
         engine="rsched", technique="preemption-bounded exhaustive interleaving exploration of the real lock-free queue + stateful "
-        "complete-state search, linearizability-style oracle from call/return stamps",
+        "complete-state search, linearizability-style oracle from call/return stamps; plus deviation-bounded exploration of the queue inside the whole runtime (start-up/shutdown barriers, LP_INIT inserts)",
         level="model_checking", design_ref="DESIGN.md 4/C15",
         text="Every schedule with <=2 preemptions (atomic-operation and call granularity) of 1-3 producers against every consumer "
              "operation string in {extract,peek}^5 plus drain, ties and a pre-cancelled entry included; complete state graph for "
@@ -73,7 +73,7 @@ CHECKS = {
         note="Only the first three raw outputs of a call are controlled; documented argument domain."),
     "C19": dict(
         engine="seqx", technique="exhaustive enumeration of geometries x sizes x sources x directions x generator states, with "
-        "call-interleaving/rollback sequences, through the real topology library",
+        "call-interleaving/rollback sequences, through the real topology library; plus exhaustive single-preemption injection of another LP's call at every hidden-state access of the library (s_libstate)",
         level="model_checking", design_ref="DESIGN.md 4/C19",
         text="All 8 geometries, grids up to 4x4 (thorough 6x6), 1..6 (8) regions, every graph on <=3 regions, every source and direction; "
              "DIRECTION_RANDOM on 1.5k (5.9k) generator states incl. rollback-and-repeat after another LP's call; CountDirections and "
@@ -129,7 +129,7 @@ CHECKS = {
              "rounds at atomic granularity, same-timestamp chains longer than a loop iteration (also at timestamp 0), 1-2 ranks: every "
              "execution returns with LP_FINI once per LP. Three shutdown defects are recorded as known findings.",
         note="Liveness under the fair default continuation after <=p deviations; known findings identified by exact site sets."),
-    "C09": dict(engine="rsched", technique="preemption/deviation-bounded exhaustive exploration of the real runtime under a deterministic scheduler (fork per execution, delay-bounded levels) over the configuration matrix; all cells compared with one reference", level="model_checking",
+    "C09": dict(engine="rsched", technique="preemption/deviation-bounded exhaustive exploration of the real runtime under a deterministic scheduler (fork per execution, delay-bounded levels) over the configuration matrix; all cells compared with one reference; plus exhaustive injection of another LP's library call between and inside the library calls of an LP (s_libstate: access call-backs from -fsanitize=thread instrumentation, run time not linked)", level="model_checking",
         design_ref="DESIGN.md 4/C09",
         text="7 RNG-driven models (every library distribution) x threads{1,2,3} x checkpoint{1,2,3,auto} x GVT period{0,never} x ranks{1,2}: "
              "first draws of every LP, all committed hashes (incl. generator state), state after rollbacks and silent re-execution equal "
